@@ -133,3 +133,100 @@ func runRecoverScenario(c *Ctx, name string) {
 		c.Report(name, 0, "", map[string]string{"scenario": "device panic during a mode-0 instruction, recovered; then two CPUs accept mode-0 requests"}, append([]string{"a device callback panicked during a mode-0 supplied instruction on CPU A, the embedder recovered and went on; then CPU B (own memory) and CPU A accepted mode-0 requests:"}, out.Diff...))
 	}
 }
+
+// Machine scenario (C08, C12). The common way to build a machine around this package is a struct that EMBEDS
+// z80.CPU and is its own memory and port device (m.Memory = m; m.IO = m). Embedding promotes every exported
+// method of CPU - Step, Run, GetFlag ... - into the machine type, so the value stored in CPU.IO and CPU.Memory
+// has those methods too. Nothing may follow from that: a short program driven by Step and by Run ends as it
+// must. In a process of its own, because one way of getting this wrong recurses until the stack is exhausted.
+type embMachine struct {
+	z80.CPU
+	ram   [65536]uint8
+	outs  []obs.PortAccess
+	reads int
+}
+
+func (m *embMachine) Get(a uint16) uint8 {
+	m.reads++
+	if m.reads > 100000 {
+		panic("watchdog: 100000 memory reads for a program of six instructions")
+	}
+	return m.ram[a]
+}
+func (m *embMachine) Set(a uint16, v uint8) { m.ram[a] = v }
+func (m *embMachine) In(p uint8) uint8      { return p + 0x30 }
+func (m *embMachine) Out(p uint8, v uint8)  { m.outs = append(m.outs, obs.PortAccess{Out: true, Port: p, Val: v}) }
+
+func machineChild() int {
+	var d []string
+	for mode := 0; mode < 2 && len(d) == 0; mode++ {
+		m := &embMachine{}
+		m.Memory, m.IO = m, m
+		// LD A,5 ; OUT (1),A ; IN A,(2) ; LD (4000h),A ; INC A ; HALT
+		copy(m.ram[0x0100:], []uint8{0x3E, 0x05, 0xD3, 0x01, 0xDB, 0x02, 0x32, 0x00, 0x40, 0x3C, 0x76})
+		m.PC, m.SP = 0x0100, 0x8000
+		m.BreakPoints = map[uint16]struct{}{0x0102: {}, 0x0106: {}}
+		var err error
+		steps := 0
+		func() {
+			defer func() {
+				if r := recover(); r != nil {
+					d = append(d, fmt.Sprintf("panic: %v", r))
+				}
+			}()
+			if mode == 0 {
+				for steps = 0; steps < 50 && !m.HALT; steps++ {
+					m.Step()
+				}
+			} else {
+				for _, bp := range []uint16{0x0102, 0x0106} {
+					err = m.Run(context.Background())
+					if err != z80.ErrBreakPoint || m.PC != bp {
+						d = append(d, fmt.Sprintf("Run returned %v at PC=%04X, want the breakpoint at %04X (breakpoints after the 1st and after the 3rd instruction)", err, m.PC, bp))
+						return
+					}
+				}
+				err = m.Run(context.Background())
+			}
+		}()
+		how := []string{"driven by Step", "driven by Run"}[mode]
+		if len(d) == 0 && (err != nil || !m.HALT || m.PC != 0x010A || m.AF.Hi != 0x33 || m.ram[0x4000] != 0x32 || len(m.outs) != 1 || m.outs[0] != (obs.PortAccess{Out: true, Port: 1, Val: 5}) || (mode == 0 && steps != 6)) {
+			d = append(d, fmt.Sprintf("a machine that embeds z80.CPU and is its own Memory and IO, %s: error %v, HALT=%v, PC=%04X (want 010A), A=%02X (want 33), (4000h)=%02X (want 32), port writes %s (want [out(01)=05]), Steps %d (want 6 when stepping)", how, err, m.HALT, m.PC, m.AF.Hi, m.ram[0x4000], fmtPorts(m.outs), steps))
+		}
+	}
+	out, _ := json.Marshal(recoverOut{Diff: d})
+	fmt.Println(string(out))
+	if len(d) > 0 {
+		return 3
+	}
+	return 0
+}
+
+func runMachineScenario(c *Ctx, name string) {
+	self, err := os.Executable()
+	if err != nil {
+		return
+	}
+	ctx, cancel := context.WithTimeout(context.Background(), 2*time.Minute)
+	defer cancel()
+	cmd := exec.CommandContext(ctx, self, "machinechild")
+	var so, se bytes.Buffer
+	cmd.Stdout, cmd.Stderr = &so, &se
+	rerr := cmd.Run()
+	c.Evaluations++
+	c.Traces++
+	c.Nontrivial++
+	var out recoverOut
+	lines := bytes.Split(bytes.TrimSpace(so.Bytes()), []byte("\n"))
+	if jerr := json.Unmarshal(lines[len(lines)-1], &out); jerr != nil {
+		msg := se.String()
+		if len(msg) > 500 {
+			msg = msg[:500]
+		}
+		c.Report(name, 0, "", map[string]string{"scenario": "a machine struct that embeds z80.CPU and is its own Memory and IO"}, []string{fmt.Sprintf("the process running a machine that embeds z80.CPU and is its own Memory and IO (m.Memory = m; m.IO = m) died without a verdict (%v). stderr: %s", rerr, msg)})
+		return
+	}
+	if len(out.Diff) > 0 {
+		c.Report(name, 0, "", map[string]string{"scenario": "a machine struct that embeds z80.CPU and is its own Memory and IO"}, out.Diff)
+	}
+}
